@@ -391,7 +391,50 @@ class Rewriter:
             text = self.r13_bytestr(scope, text)
         if u.index_recv:
             text = self.r6_index(scope, text)
+        if "R16" in u.rw:
+            text = self.r16_slice_eq(scope, text)
         return text
+
+    def r16_slice_eq(self, scope, text):
+        """`X.slice(a, b) == RHS` (result of R6 on `&X[a..b] == RHS`) -> `bytes_eq(X.slice(a, b), RHS)`"""
+        recvs = sorted(self.unit.index_recv, key=len, reverse=True)
+        alt = "|".join(re.escape(r) for r in recvs)
+        rx = re.compile(r"(?<![\w.$])((?:%s)\.slice(?:_from|_to|_all)?)\(" % alt)
+        pos = 0
+        while True:
+            m = rl.mask(text)
+            mt = rx.search(m, pos)
+            if not mt:
+                return text
+            op = mt.end() - 1
+            cl = rl.match_close(m, op)
+            k = cl + 1
+            while k < len(m) and m[k] in " \t\n":
+                k += 1
+            if m.startswith("==", k) or (m.startswith("!=", k)):
+                neg = m.startswith("!=", k)
+                j = k + 2
+                while j < len(m) and m[j] in " \t\n":
+                    j += 1
+                e = j
+                d = 0
+                while e < len(m):
+                    c = m[e]
+                    if c in "([":
+                        e = rl.match_close(m, e)
+                    elif c in ")]};," or c == "{":
+                        break
+                    elif m.startswith("&&", e) or m.startswith("||", e):
+                        break
+                    e += 1
+                rhs = text[j:e].rstrip()
+                lhs = text[mt.start():cl + 1]
+                new = "%sbytes_eq(%s, %s)" % ("!" if neg else "", lhs, rhs)
+                self.note("R16", scope, text[mt.start():j + len(rhs)], new)
+                text = text[:mt.start()] + new + text[j + len(rhs):]
+                pos = mt.start() + len(new)
+            else:
+                pos = cl + 1
 
     def r1_logs(self, scope, text):
         while True:
@@ -731,7 +774,9 @@ def build(unit_path, mode="verify"):
     for q in res.exec_fns:
         res.obligations.append("%s::%s::safety" % (u.name, q))
     for (a, b, q, label, kind) in res.clause_lines:
-        res.obligations.append("%s::%s::%s" % (u.name, q, label))
+        ob = "%s::%s::%s" % (u.name, q, label)
+        if ob not in res.obligations:
+            res.obligations.append(ob)
     # proof fns / lemmas in spec blocks
     for mt in re.finditer(r"\bproof\s+fn\s+(\w+)", rl.mask(res.text)):
         res.proof_fns.append(mt.group(1))
@@ -939,7 +984,15 @@ def self_emit_fn(em, res, u, rw, qual, sig, body, orig, rel, self_subst, mode, d
         if p[0] == "src":
             cur += p[1]
         elif p[0] == "raw":
-            cur += "\n" + p[1] + "\n"
+            if mode == "verify" and p[1].strip() != "assert(false);":
+                # emit on own lines so failures inside contract-file proof hints can be named
+                if cur:
+                    em.add(indent + cur)
+                    cur = ""
+                a, b = em.add(p[1])
+                res.clause_lines.append((a, b, qual, "proof_hints", "ghost"))
+            else:
+                cur += "\n" + p[1] + "\n"
         elif p[0] == "loop":
             # flush current text, then emit clauses on their own lines
             if cur:
